@@ -1,6 +1,7 @@
 package main
 
 import (
+	"encoding/json"
 	"flag"
 	"fmt"
 	"os"
@@ -60,6 +61,21 @@ func main() {
 		}
 	case "check":
 		os.Exit(cmdCheck(os.Args[2:]))
+	case "replay":
+		os.Exit(cmdReplay(os.Args[2:]))
+	case "family":
+		e, err := newEngine("", "")
+		if err != nil {
+			fmt.Fprintln(os.Stderr, err)
+			os.Exit(3)
+		}
+		ok, w := e.findFailingInput(os.Args[2], "", nil, "quick", 0)
+		fmt.Println(ok)
+		for _, d := range familyCache[propHarness[os.Args[2]]] {
+			b, _ := json.Marshal(d)
+			fmt.Println(string(b))
+		}
+		_ = w
 	case "selftest":
 		os.Exit(cmdSelftest(os.Args[2:]))
 	default:
